@@ -41,9 +41,28 @@ def _apply(source: Source, variant: Variant) -> Optional[Dict[str, str]]:
     return overlay
 
 
+def _renamed_overlay(source: Source) -> Dict[str, str]:
+    """Every function-local variable of the whole package renamed (a behaviour-preserving twin)."""
+    import ast
+    import importlib.util
+
+    spec = importlib.util.spec_from_file_location("rename_twins", os.path.join(os.path.dirname(os.path.dirname(os.path.abspath(__file__))), "tools", "rename_twins.py"))
+    module = importlib.util.module_from_spec(spec)
+    assert spec and spec.loader
+    spec.loader.exec_module(module)
+    overlay: Dict[str, str] = {}
+    for rel in source.python_files():
+        tree = module.Renamer().visit(ast.parse(source.read(rel)))
+        ast.fix_missing_locations(tree)
+        overlay[rel] = ast.unparse(tree)
+    return overlay
+
+
 def _run_one(args: Tuple[str, Variant, List[str]]) -> Dict[str, Any]:
     prop, variant, base_idents = args
     source = Source()
+    if variant.name == RENAME_TWIN:
+        return _run_rename_twin(prop, source, base_idents)
     overlay = _apply(source, variant)
     if overlay is None:
         return {"name": variant.name, "kind": variant.kind, "status": "inapplicable"}
@@ -69,6 +88,25 @@ def _run_one(args: Tuple[str, Variant, List[str]]) -> Dict[str, Any]:
             "detail": [f.message[:160] for f in new][:3]}
 
 
+RENAME_TWIN = "twin: every local variable of the package renamed and every file re-printed"
+
+
+def _run_rename_twin(prop: str, source: Source, base_idents: List[str]) -> Dict[str, Any]:
+    module = importlib.import_module(f"sa.rules.{prop.lower()}")
+    try:
+        prog = Program(source.with_overlay(_renamed_overlay(source)))
+        ctx = Context(prog, "quick", prop)
+        module.run(ctx)
+        ctx.check_floors()
+    except AnalysisError as exc:
+        return {"name": RENAME_TWIN, "kind": "twin", "status": "analysis-error", "detail": str(exc)[:200]}
+    # construct keys contain statement text, which the renaming changes: compare per rule
+    base_rules = sorted(ident.split("|")[0] for ident in base_idents)
+    new_rules = sorted(f.rule for f in ctx.findings())
+    status = "silent" if base_rules == new_rules else "false-alarm"
+    return {"name": RENAME_TWIN, "kind": "twin", "status": status, "rules": sorted(set(new_rules) - set(base_rules)), "detail": []}
+
+
 def variants_for(prop: str) -> List[Variant]:
     try:
         module = importlib.import_module(f"sa.variants.{prop.lower()}")
@@ -86,6 +124,7 @@ def run(prop: str, seed: int = 0, base_idents: Optional[List[str]] = None) -> Di
         ctx = Context(prog, "quick", prop)
         module.run(ctx)
         base_idents = [f.ident() for f in ctx.findings()]
+    variants.append(Variant(RENAME_TWIN, "twin", []))
     jobs = [(prop, variant, base_idents) for variant in variants]
     results: List[Dict[str, Any]] = []
     if jobs:
